@@ -14,6 +14,13 @@
 //	1 t k l h    caller t starts the call (k l h)
 //	2 k          the (k mod n)-th of the n runnable threads takes one step
 //	3 n          up to n steps of the first runnable thread
+//	4 a...       burst: the calls a (triples as above, no publish) are released together on as many
+//	             goroutines of their own (callers 1000, 1001, ...) with real parallelism - no hooks, all
+//	             processors - when they commute (parOK = par_ok of EventBus.v: two calls on the same
+//	             (level, handler) pair are of the same kind, all core-level subscriptions name one
+//	             handler); otherwise one after the other in the order given.  Reported when all have
+//	             returned, in the order given.  May come at any moment: parked goroutines hold at most
+//	             muHandle, never events.mu.
 //
 // obs encoding (print_obs): thread = two ints, [0 t] caller, [h+1 e] goroutine of handler h for event e
 //
@@ -26,10 +33,12 @@ package main
 
 import (
 	"fmt"
+	"os"
 	"runtime"
 	"strconv"
 	"strings"
 	"sync"
+	"sync/atomic"
 	"time"
 
 	"github.com/enbility/spine-go/api"
@@ -112,7 +121,7 @@ type impl struct {
 	events  chan event
 	arrived map[int64]int // event -> goroutines arrived
 	impatient bool        // something timed out in this history: keep further waits short
-	hs      []*handler
+	hs      map[int64]*handler
 }
 
 var statMu sync.Mutex
@@ -124,14 +133,9 @@ func stat(k string, n int) {
 	statMu.Unlock()
 }
 
-const nHandlers = 6
-
 func newImpl() hx.Impl {
 	im := &impl{byGoid: map[uint64]*thread{}, scripts: map[item][]act{}, set: map[item]bool{},
-		events: make(chan event, 1024), arrived: map[int64]int{}}
-	for h := int64(0); h < nHandlers; h++ {
-		im.hs = append(im.hs, &handler{im: im, h: h})
-	}
+		events: make(chan event, 1024), arrived: map[int64]int{}, hs: map[int64]*handler{}}
 	spine.VerifResetEvents()
 	spine.VerifSetYield(im.yield)
 	return im
@@ -242,8 +246,179 @@ func (im *impl) do(t *thread, a act) {
 	}
 }
 
+// handler h is one object per history, made when first named
 func (im *impl) handler(h int64) *handler {
-	return im.hs[int(h)%len(im.hs)]
+	im.mu.Lock()
+	defer im.mu.Unlock()
+	hd := im.hs[h]
+	if hd == nil {
+		hd = &handler{im: im, h: h}
+		im.hs[h] = hd
+	}
+	return hd
+}
+
+// ---- bursts of overlapping subscribe / unsubscribe calls
+
+const parBase = 1000
+
+// parOK mirrors par_ok of Model/EventBus.v: the calls commute.
+func parOK(acts []act) bool {
+	for i, a := range acts {
+		if a.k != 0 && a.k != 1 {
+			return false
+		}
+		for _, b := range acts[i+1:] {
+			if b.k != 0 && b.k != 1 {
+				return false
+			}
+			same := a.l == b.l && a.h == b.h
+			if same && a.k != b.k {
+				return false
+			}
+			if a.k == 0 && b.k == 0 && a.l == 0 && b.l == 0 && !same {
+				return false
+			}
+		}
+	}
+	return true
+}
+
+func normLevel(l int64) int64 {
+	if l == 0 {
+		return 0
+	}
+	return 1
+}
+
+// call performs one subscribe / unsubscribe on the real bus; false when it reported an error.
+func (im *impl) call(a act, hd *handler) bool {
+	var err error
+	switch {
+	case a.k == 0 && a.l == 0:
+		err = spine.VerifSubscribeCore(hd)
+	case a.k == 0:
+		err = spine.Events.Subscribe(hd)
+	case a.l == 0:
+		err = spine.VerifUnsubscribeCore(hd)
+	default:
+		err = spine.Events.Unsubscribe(hd)
+	}
+	return err == nil
+}
+
+func (im *impl) par(acts []act) []hx.Zs {
+	for i := range acts {
+		acts[i].l = normLevel(acts[i].l)
+	}
+	k := len(acts)
+	hds := make([]*handler, k) // looked up beforehand: nothing but the bus call after the common start
+	for i, a := range acts {
+		hds[i] = im.handler(a.h)
+	}
+	ok := make([]bool, k)
+	returned := make([]atomic.Bool, k)
+	busLen := len(im.set)
+	if parOK(acts) && k >= 2 {
+		stat("bursts_overlapped", 1)
+		stat("burst_calls_overlapped", k)
+		if busLen >= 500 {
+			stat("bursts_overlapped_on_a_bus_of_500_or_more", 1)
+		}
+		samePair := true
+		for _, a := range acts {
+			if a != acts[0] {
+				samePair = false
+			}
+		}
+		if samePair && acts[0].k == 0 {
+			stat("bursts_same_pair_subscriptions", 1)
+		}
+		var wg sync.WaitGroup
+		var waiting atomic.Int32
+		waiting.Store(int32(k))
+		start := make(chan struct{})
+		// A common start as tight as goroutines allow.  Up to half the processors: every goroutine
+		// announces itself and then spins WITHOUT yielding its processor until all have announced
+		// themselves, so that at the moment of release they are all running (measured on the seeded
+		// split of subscribe into two critical sections, 16 processors, 1024 entries on the bus:
+		// 8 such goroutines enter the pair twice in about 85 % of the bursts, 16 goroutines yielding
+		// in the wait loop in 3 %, released by a closed channel in 1 %).  A goroutine that has spun
+		// for 5 ms yields from then on (the others may not have got a processor).  More calls than
+		// that: yielding wait loop; the big fills: a closed channel.
+		procs := runtime.GOMAXPROCS(0)
+		tight := k <= procs/2 || k == 2 && procs >= 2
+		spin := k <= 64
+		if tight {
+			stat("bursts_with_tight_common_start", 1)
+		}
+		for i := range acts {
+			wg.Add(1)
+			go func(i int) {
+				defer wg.Done()
+				switch {
+				case tight:
+					waiting.Add(-1)
+					deadline := time.Now().Add(5 * time.Millisecond)
+					late := false
+					for n := 1; waiting.Load() > 0; n++ {
+						if late {
+							runtime.Gosched()
+						} else if n&255 == 0 && time.Now().After(deadline) {
+							late = true
+						}
+					}
+				case spin:
+					waiting.Add(-1)
+					for waiting.Load() > 0 {
+						runtime.Gosched()
+					}
+				default:
+					<-start
+				}
+				ok[i] = im.call(acts[i], hds[i])
+				returned[i].Store(true)
+			}(i)
+		}
+		close(start)
+		fin := make(chan struct{})
+		go func() { wg.Wait(); close(fin) }()
+		select {
+		case <-fin:
+		case <-time.After(im.patienceOr()):
+			im.impatient = true
+		}
+	} else {
+		stat("bursts_one_call_after_the_other", 1)
+		for i, a := range acts {
+			if a.k == 0 || a.k == 1 {
+				ok[i] = im.call(a, hds[i])
+				returned[i].Store(true)
+			}
+		}
+	}
+	var out []hx.Zs
+	im.mu.Lock()
+	for i, a := range acts {
+		if a.k != 0 && a.k != 1 {
+			continue
+		}
+		if !returned[i].Load() {
+			out = append(out, hx.Zs{10, 0, parBase + int64(i)})
+			continue
+		}
+		if !ok[i] {
+			continue // an error return is not an observation of the model: the comparison shows it
+		}
+		if a.k == 0 {
+			im.set[item{a.l, a.h}] = true
+		} else {
+			delete(im.set, item{a.l, a.h})
+		}
+		out = append(out, hx.Zs{a.k, 0, parBase + int64(i), a.l, a.h})
+	}
+	im.mu.Unlock()
+	return out
 }
 
 // runScript: park before every call (an API caller, an application handler).
@@ -504,6 +679,12 @@ func (im *impl) Exec(op hx.Zs) []hx.Zs {
 		return nil
 	case 2:
 		return im.sched(op[1])
+	case 4:
+		var acts []act
+		for i := 1; i+2 < len(op); i += 3 {
+			acts = append(acts, act{op[i], op[i+1], op[i+2]})
+		}
+		return im.par(acts)
 	case 3:
 		var out []hx.Zs
 		for i := int64(0); i < op[1]; i++ {
@@ -535,7 +716,144 @@ func randAct(r *hx.Rng, level int64, nh int, pubChance int) act {
 	return act{int64(r.Intn(2)), int64(r.Intn(2)), int64(r.Intn(nh))}
 }
 
+// genBurst: a burst over the handlers 0..nh-1; mostly well posed (the runner overlaps those).
+func genBurst(r *hx.Rng, nh int) hx.Zs {
+	z := hx.Zs{4}
+	add := func(k, l, h int) { z = append(z, int64(k), int64(l), int64(h)) }
+	switch r.Pick(4, 3, 2, 4, 1) {
+	case 0: // one pair subscribed several times over
+		l, h := r.Intn(2), r.Intn(nh)
+		for n := r.Range(2, 6); n > 0; n-- {
+			add(0, l, h)
+		}
+	case 1: // subscriptions of several pairs (core level: one handler)
+		coreH := r.Intn(nh)
+		for n := r.Range(2, 5); n > 0; n-- {
+			l, h := r.Intn(2), r.Intn(nh)
+			if l == 0 {
+				h = coreH
+			}
+			add(0, l, h)
+		}
+	case 2: // unsubscriptions
+		for n := r.Range(2, 5); n > 0; n-- {
+			add(1, r.Intn(2), r.Intn(nh))
+		}
+	case 3: // a mix: every pair either subscribed or unsubscribed, possibly by several calls
+		coreSub := false
+		for len(z) < 7 {
+			z = hx.Zs{4}
+			coreSub = false
+			for l := 0; l < 2; l++ {
+				for h := 0; h < nh; h++ {
+					if r.Chance(1, 2) {
+						continue
+					}
+					k := r.Intn(2)
+					if k == 0 && l == 0 {
+						if coreSub {
+							k = 1
+						}
+						coreSub = k == 0
+					}
+					for n := r.Pick(3, 1); n >= 0; n-- {
+						add(k, l, h)
+					}
+				}
+			}
+		}
+		// the order given is only one of the serialisations: shuffle the calls
+		n := (len(z) - 1) / 3
+		for a := n - 1; a > 0; a-- {
+			b := r.Intn(a + 1)
+			for c := 0; c < 3; c++ {
+				z[1+3*a+c], z[1+3*b+c] = z[1+3*b+c], z[1+3*a+c]
+			}
+		}
+	default: // anything: when the calls do not commute the runner takes them one after the other
+		for n := r.Range(2, 4); n > 0; n-- {
+			add(r.Intn(2), r.Intn(2), r.Intn(nh))
+		}
+	}
+	return z
+}
+
+const (
+	wideEvery   = 30   // one generated history in wideEvery is a wide-bus history
+	wideFillers = 1024 // other subscribers on the bus while the bursts run: a long "already subscribed?" scan
+	wideCalls   = 8    // overlapping subscriptions of one pair (half the processors of the machine this was tuned on)
+	wideTargets = 60   // handlers that are subscribed that way, at either level, in one such history
+	fillerBase  = 1000
+)
+
+// genWide: the bus is filled with many other subscribers; then, target by target (both levels),
+// wideCalls overlapping subscriptions of the same pair; the other subscribers leave again (another
+// burst) and one publication shows how often each target is on the bus.  Before that, two bursts
+// of subscriptions of different pairs and a mixed burst, also on the full bus.
+func genWide(r *hx.Rng, tier string, i int) []hx.Zs {
+	fillers := wideFillers
+	if i == 5 {
+		fillers = 48 // the first one is short enough for the in-Coq cross-check sample
+	}
+	var h []hx.Zs
+	fill, unfill := hx.Zs{4}, hx.Zs{4}
+	for f := 0; f < fillers; f++ {
+		fill = append(fill, 0, 1, int64(fillerBase+f))
+		unfill = append(unfill, 1, 1, int64(fillerBase+f))
+	}
+	h = append(h, fill)
+	nt := r.Range(wideTargets-8, wideTargets)
+	if i == 5 {
+		nt = 6
+	}
+	type pair struct{ l, h int64 }
+	var targets []pair
+	for t := 0; t < nt; t++ {
+		targets = append(targets, pair{0, int64(t)}, pair{1, int64(t)})
+	}
+	for a := len(targets) - 1; a > 0; a-- {
+		b := r.Intn(a + 1)
+		targets[a], targets[b] = targets[b], targets[a]
+	}
+	for _, t := range targets {
+		k := wideCalls
+		if r.Chance(1, 6) {
+			k = r.Range(2, wideCalls)
+		}
+		b := hx.Zs{4}
+		for ; k > 0; k-- {
+			b = append(b, 0, t.l, t.h)
+		}
+		h = append(h, b)
+	}
+	// overlapping subscriptions of DIFFERENT pairs on the full bus (one core-level pair among them):
+	// every one of them must be there afterwards
+	next := int64(wideTargets)
+	for n := 2; n > 0; n-- {
+		b := hx.Zs{4, 0, 0, next}
+		for k := 1; k < wideCalls; k++ {
+			b = append(b, 0, 1, next+int64(k))
+		}
+		next += wideCalls
+		h = append(h, b)
+	}
+	// a mix: some targets leave (two calls each), new pairs come
+	b := hx.Zs{4}
+	for _, t := range targets[:4] {
+		b = append(b, 1, t.l, t.h, 1, t.l, t.h)
+	}
+	for k := int64(0); k < 8; k++ {
+		b = append(b, 0, 1, next+k)
+	}
+	h = append(h, b)
+	h = append(h, unfill, hx.Zs{1, 0, 2, 0, 0}, hx.Zs{3, 600}, hx.Zs{2, 0})
+	return h
+}
+
 func gen(r *hx.Rng, tier string, i int) []hx.Zs {
+	if i%wideEvery == 5 || os.Getenv("C15_ONLY_WIDE") != "" { // the variable: only for measuring how often a seeded race is hit
+		return genWide(r, tier, i)
+	}
 	var h []hx.Zs
 	nh := r.Range(2, 4)
 	kind := i % 4
@@ -562,7 +880,9 @@ func gen(r *hx.Rng, tier string, i int) []hx.Zs {
 		n = r.Range(10, 140)
 	}
 	for len(h) < n {
-		switch r.Pick(22, 50, 4, 3) {
+		switch r.Pick(22, 50, 4, 3, 5) {
+		case 4:
+			h = append(h, genBurst(r, nh))
 		case 0:
 			t := int64(r.Intn(4))
 			switch r.Pick(5, 3, 3) {
@@ -596,7 +916,31 @@ func fixed(tier string) [][]hx.Zs {
 	pub := func(t int64) hx.Zs { return hx.Zs{1, t, 2, 0, 0} }
 	step := func(k int64) hx.Zs { return hx.Zs{2, k} }
 	drain := hx.Zs{3, 100}
+	par := func(acts ...act) hx.Zs {
+		z := hx.Zs{4}
+		for _, a := range acts {
+			z = append(z, a.k, a.l, a.h)
+		}
+		return z
+	}
+	rep := func(n int, a act) []act {
+		var l []act
+		for ; n > 0; n-- {
+			l = append(l, a)
+		}
+		return l
+	}
 	return [][]hx.Zs{
+		// the burst example of Properties/C15.v: overlapping subscriptions while a publication is parked after its snapshot
+		{sub(0, 1, 1), hx.Zs{3, 5}, pub(0), step(0), par(act{0, 1, 2}, act{0, 0, 3}, act{0, 1, 2}, act{0, 1, 2}), hx.Zs{3, 50},
+			pub(0), hx.Zs{3, 50}, par(act{1, 1, 1}, act{0, 1, 4}, act{1, 0, 3}), pub(0), hx.Zs{3, 50}, step(0)},
+		// eight overlapping subscriptions of one handler, at either level: it is subscribed once per level
+		{par(rep(8, act{0, 1, 1})...), par(rep(8, act{0, 0, 1})...), pub(0), drain, par(rep(4, act{1, 1, 1})...), pub(0), drain, step(0)},
+		// calls that do not commute are taken in the order given
+		{par(act{0, 1, 1}, act{1, 1, 1}, act{0, 0, 2}, act{0, 0, 3}), pub(0), drain, par(act{1, 0, 2}, act{0, 0, 2}), pub(0), drain, step(0)},
+		// a burst while a publisher holds the handler lock inside a core handler
+		{sub(0, 0, 0), step(0), pub(0), step(0), step(0), step(0), par(act{0, 1, 1}, act{0, 1, 2}, act{1, 0, 0}, act{0, 1, 1}), drain,
+			pub(0), drain, step(0)},
 		// the non-vacuity example of Properties/C15.v
 		{encScript(0, 1, []act{{0, 1, 3}}), encScript(1, 2, []act{{1, 1, 2}, {2, 0, 0}}),
 			sub(0, 0, 1), sub(1, 1, 2), sub(2, 1, 2), hx.Zs{3, 10}, pub(0), step(0), unsub(1, 1, 2), step(1), drain, step(0)},
@@ -622,7 +966,7 @@ func main() {
 		Clauses: map[int64]string{1: "delivered-to-a-handler-not-subscribed-at-publication", 2: "delivered-twice",
 			3: "core-handler-not-first", 4: "application-handler-not-asynchronous", 5: "delivery-or-return-missing",
 			6: "deadlock", 7: "impossible-observation", 98: "unparseable-observation", 99: "unparseable-operation"},
-		OpNames: map[int64]string{0: "script", 1: "call", 2: "step", 3: "drain"},
+		OpNames: map[int64]string{0: "script", 1: "call", 2: "step", 3: "drain", 4: "burst"},
 		NewImpl: newImpl,
 		Gen:     gen,
 		Fixed:   fixed,
@@ -634,7 +978,8 @@ func main() {
 			for k, v := range stats {
 				m[k] = v
 			}
-			m["note"] = fmt.Sprintf("handlers are scripted objects (%d per history) subscribed through Events.Subscribe / VerifSubscribeCore; the level of a delivery is observed (synchronous on the publisher's goroutine = core, own goroutine = application)", nHandlers)
+			m["note"] = "handlers are scripted objects (one per handler number and history) subscribed through Events.Subscribe / VerifSubscribeCore; the level of a delivery is observed (synchronous on the publisher's goroutine = core, own goroutine = application)"
+			m["bursts_note"] = fmt.Sprintf("a burst = overlapping subscribe/unsubscribe calls released together on goroutines of their own, all processors (GOMAXPROCS=%d), no hooks; one generated history in %d fills the bus with %d other subscribers and then runs, for %d-%d targets (handlers at either level), %d overlapping subscriptions of the same pair (the window between the 'already subscribed?' scan and the append grows with the length of the bus), two bursts of as many subscriptions of different pairs and a mixed burst, empties the bus again and publishes once: a pair entered twice is delivered twice, a lost one is missing", runtime.GOMAXPROCS(0), wideEvery, wideFillers, 2*(wideTargets-8), 2*wideTargets, wideCalls)
 			return m
 		},
 	})
